@@ -38,3 +38,35 @@ Lemma repaired_run :
   p_phase (zfinal true) = Finished /\
   snd (zparty_run rq rhs true renv rmsgs) = [(OHashMismatch, TNone); (OAdded, TNone); (ORecovered, TDone)].
 Proof. vm_compute. repeat split. Qed.
+
+(* The repaired round takes "the sender has a registered sign key" for membership.  The node fills
+   that table from self-signed SignPubKeyMessages (group_create.OnMessageSignPK) without checking that
+   the sender is a group member or that the key is the member's; the first key received for an id
+   stays.  Same group as above (members 1,2,3; threshold 2; group secret 5), handler WITH the hash
+   comparison.
+   (a) id 4 is not a member but has registered key 50: its share is admitted and counted, the
+       recovered value 6 is not the group signature 35, the party ends with an error although the two
+       honest members 2 and 3 delivered (member 3's message finds no party).
+   (b) key 60 was registered under member 2's id before member 2's own key arrived: the squatter's
+       share under id 2 is admitted, member 2's valid share is rejected as a bad signature, the
+       recovered value is garbage again. *)
+Definition renv_outsider : @env Z nat := Env 0%nat 1%nat [(1, 8); (2, 11); (3, 14); (4, 50)] 2 false 5.
+Definition outsider4 : @msg Z nat := Msg 4 0%nat (PVal (50 * 7)) (PVal (50 * 9)).
+Definition renv_squat : @env Z nat := Env 0%nat 1%nat [(1, 8); (2, 60); (3, 14)] 2 false 5.
+Definition squatter2 : @msg Z nat := Msg 2 0%nat (PVal (60 * 7)) (PVal (60 * 9)).
+
+Definition zrun (e : @env Z nat) (ms : list (@msg Z nat)) := zparty_run rq rhs true e ms.
+
+Lemma registered_key_run :
+  (* (a) *)
+  g_map (st_g (p_st (fst (zrun renv_outsider [outsider4; honest2; honest3])))) = [(4, 350); (2, 77)] /\
+  g_sig (st_g (p_st (fst (zrun renv_outsider [outsider4; honest2; honest3])))) = Some 6 /\
+  zveq rq 6 (5 * zH rhs 0) = false /\
+  snd (zrun renv_outsider [outsider4; honest2; honest3]) =
+    [(OAdded, TNone); (ORecovered, TErrG); (OClosed, TNone)] /\
+  (* (b) *)
+  snd (zrun renv_squat [squatter2; honest2; honest3]) =
+    [(OAdded, TNone); (OBadSign, TNone); (ORecovered, TErrG)] /\
+  g_map (st_g (p_st (fst (zrun renv_squat [squatter2; honest2; honest3])))) = [(2, 420); (3, 98)] /\
+  zveq rq 420 (11 * zH rhs 0) = false.
+Proof. vm_compute. repeat split. Qed.
